@@ -1,5 +1,6 @@
 """Seeded search over many simulated runs: process pool, aggregation in seed order, shrinking, replay files, evidence."""
 import copy
+import re
 import faulthandler
 import json
 import multiprocessing
@@ -167,6 +168,7 @@ def check(prop, tier="quick", base_seed=None, workers=None, n_override=None, wal
                 except Exception:
                     pass
     results.sort(key=lambda r: r["i"])
+    known = load_known()
     extra = None
     try:
         extra = driver.extra(tier, base_seed)
@@ -174,7 +176,6 @@ def check(prop, tier="quick", base_seed=None, workers=None, n_override=None, wal
         harness_errors.append({"i": -2, "seed": -2, "harness_error": "extra: " + "".join(traceback.format_exception(type(e), e, e.__traceback__))[-3000:]})
 
     # ---- violations: group by key, minimise the first of each, replay in a fresh interpreter
-    known = load_known()
     by_key = {}
     for r in results:
         for v in r["viol"]:
@@ -189,6 +190,36 @@ def check(prop, tier="quick", base_seed=None, workers=None, n_override=None, wal
     n_viol = 0
     replays = []
     os.makedirs(os.path.join(VERIF, "replays", prop), exist_ok=True)
+    # ---- corpus: the minimised replay of every confirmed (and since repaired) finding is always re-run
+    corpus_dir = os.path.join(VERIF, "corpus", prop)
+    corpus_n = corpus_hit = 0
+    if os.path.isdir(corpus_dir):
+        for name in sorted(os.listdir(corpus_dir)):
+            if not name.endswith(".json"):
+                continue
+            path = os.path.join(corpus_dir, name)
+            corpus_n += 1
+            try:
+                with open(path) as f:
+                    rep = json.load(f)
+                if hasattr(driver, "replay"):
+                    vs, _ = driver.replay(rep)
+                else:
+                    vs, _ = driver.violations_of(rep["plan"])
+            except Exception as e:
+                harness_errors.append({"i": -3, "seed": -3, "harness_error": f"corpus {path}: " + "".join(traceback.format_exception(type(e), e, e.__traceback__))[-2000:]})
+                continue
+            mine = [x for x in vs if x["key"] == rep["key"] and x["property"] == prop]
+            if mine:
+                kf = match_known(known, prop, rep["key"])
+                if kf is not None:
+                    lines.append(f"KNOWN-FINDING: property={prop} {kf.get('what', rep['key'])} (corpus {name})")
+                    continue
+                corpus_hit += 1
+                n_viol += 1
+                exit_code = 1
+                lines.append(f"VIOLATION property={prop} replay={path}")
+                lines.append(f"  rule={rep['key']} (a previously repaired finding is back): {mine[0]['msg'][:400]}")
     for key in sorted(by_key):
         occ = by_key[key]
         n_viol += len(occ)
@@ -217,6 +248,8 @@ def check(prop, tier="quick", base_seed=None, workers=None, n_override=None, wal
     aborted = [r for r in results if r.get("aborted")]
     wall = time.time() - t_start
     ev = build_evidence(prop, tier, base_seed, driver, results, extra, n_viol, wall, harness_errors, aborted, n)
+    ev["coverage"]["corpus_replays"] = corpus_n
+    ev["coverage"]["corpus_replays_reproduced"] = corpus_hit
     os.makedirs(os.path.join(VERIF, "evidence"), exist_ok=True)
     with open(os.path.join(VERIF, "evidence", f"{prop}.json"), "w") as f:
         json.dump(ev, f, indent=1, sort_keys=True, default=str)
@@ -226,6 +259,8 @@ def check(prop, tier="quick", base_seed=None, workers=None, n_override=None, wal
     print(f"{prop}: runs={cov['evaluations']} nontrivial_distinct={cov['distinct_nontrivial']} steps={cov.get('steps')} "
           f"sim_hours={cov.get('simulated_hours', 0):.1f} states={cov.get('distinct_abstract_states')} violations={n_viol} "
           f"aborted={len(aborted)} wall={wall:.1f}s", file=out)
+    if aborted:
+        print(f"{prop}: first aborted run (seed {aborted[0]['seed']}): {aborted[0]['aborted'][-400:]}", file=out)
     zero = [p for p, c in (cov.get("probes") or {}).items() if c == 0]
     if zero:
         print(f"{prop}: WARNING probes stuck at zero: {zero}", file=out)
@@ -269,7 +304,7 @@ def minimise_and_save(driver, prop, r, v, key):
         rep = {"version": 1, "driver": driver.name, "property": prop, "key": key, "rule": mine[0]["rule"], "step": mine[0]["step"],
                "msg": mine[0]["msg"], "seed": r["seed"], "history_digest": run.history.hexdigest(), "size": plan_size(small),
                "plan": small}
-    path = os.path.join(VERIF, "replays", prop, f"{key.replace('/', '_')}_{r['seed']}.json")
+    path = os.path.join(VERIF, "replays", prop, re.sub(r'[^A-Za-z0-9_.-]', '_', key) + f"_{r['seed']}.json")
     dump(rep, path)
     ok, note = replay_fresh(path)
     return path, ok, note
